@@ -31,26 +31,17 @@ Theorem C08_klv_bounded_partial : forall hist,
 Proof. exact bounded_partial. Qed.
 Print Assumptions C08_klv_bounded_partial.
 
-(* FINDING F3: a later Decode call writes to the region of a unit already returned: two single-packet
-   units in a row, the second is copied into the backing array of the first *)
-Theorem C08_klv_no_write_after_return_refuted : exists hist,
-  write_after_return (snd (dec_run dinit hist)) = true.
-Proof. exact no_write_after_return_refuted. Qed.
-Print Assumptions C08_klv_no_write_after_return_refuted.
+(* Aliasing clause, FULL (finding F3 repaired by /repo 5cc6a94: reset() drops the buffer): on every
+   packet history no Decode call writes to a region that an earlier call returned.  Regions: every
+   returned unit carries the tag of the array it lives in, every step lists the arrays it writes.
+   The refutation of the old code is kept in coq/klv/history/ (not built). *)
+Theorem C08_klv_no_write_after_return : forall hist,
+  write_after_return (snd (dec_run dinit hist)) = false.
+Proof. exact no_write_after_return. Qed.
+Print Assumptions C08_klv_no_write_after_return.
 
-(* what holds: after any history, a Decode call writes only to the region of the decoder's current
-   buffer or to a brand-new region that was never returned.  MISSING: the current buffer's region
-   has itself been returned (reset keeps d.buffer[:0]). *)
-Theorem C08_klv_writes_partial : forall hist p,
-  let '(d, rs) := dec_run dinit hist in
-  let '(_, _, w) := dec d p in
-  forall x, In x w ->
-    (x = dreg d /\ dreg d <> 0) \/ (x = dfresh d /\ ~ In x (returned_regions rs)).
-Proof. exact writes_partial. Qed.
-Print Assumptions C08_klv_writes_partial.
-
-Example C08_klv_example :
+Example C08_klv_example :   (* the old witness: the two units now live in different regions *)
   map fst (snd (dec_run dinit [mkPkt 10 0 true unitA; mkPkt 11 0 true unitB]))
-    = [DFrame (unitA, 1); DFrame (unitB, 1)]      (* both results live in region 1 *)
-  /\ map snd (snd (dec_run dinit [mkPkt 10 0 true unitA; mkPkt 11 0 true unitB])) = [[1]; [1]].
+    = [DFrame (unitA, 1); DFrame (unitB, 2)]
+  /\ map snd (snd (dec_run dinit [mkPkt 10 0 true unitA; mkPkt 11 0 true unitB])) = [[1]; [2]].
 Proof. split; vm_compute; reflexivity. Qed.
